@@ -252,8 +252,12 @@ def bandlimited_rms(r, psd, wllow=None, wlhigh=None, flow=None, fhigh=None):
         c2 = list(c)
         c2[0] = c2[0] - 1
         c2 = tuple(c2)
+        c3 = list(c)
+        c3[1] = c3[1] - 1
+        c3 = tuple(c3)
         pt1 = r[c]
         pt2 = r[c2]
+        pt3 = r[c3]
     else:
         c = r.shape[0]//2
         pt1 = r[c]
@@ -270,7 +274,9 @@ def bandlimited_rms(r, psd, wllow=None, wlhigh=None, flow=None, fhigh=None):
     reduced = trapezoid(work, dx=dx, axis=0)
 
     if r.ndim == 2:
-        reduced = trapezoid(reduced, dx=dx, axis=0)
+        # the remaining axis is the original axis 1, which has its own sample spacing
+        dx2 = abs(pt3 - pt1)
+        reduced = trapezoid(reduced, dx=dx2, axis=0)
 
     return np.sqrt(reduced)
 
